@@ -90,6 +90,8 @@ Closure(M) ==
   /\ \A k \in KinKeys(M) : M.kin[k] \ Params(M) \subseteq M.p4
 ExprConsistent(M) == M.expr = ExprSyms(M) /\ CompSyms(M) \subseteq M.expr
 NamesUnique(M) == \A s, t \in AllSyms(M) : s.name = t.name => s = t
+\* names are unambiguous and a four-momentum is neither a parameter nor a kinematic variable
+WellNamed(M) == NamesUnique(M) /\ M.p4 \cap (Params(M) \cup KinKeys(M)) = {}
 ParamsWellFormed(M) ==
   /\ Len(M.pkeys) = Len(M.pvals)
   /\ \A i, j \in DOMAIN M.pkeys : M.pkeys[i] = M.pkeys[j] => i = j
@@ -108,17 +110,19 @@ DictVals(nk, vals) ==
 \* ---- the property: the renamed model is the image of the original --------
 KinInjective(M, pairs) ==
   \A k1, k2 \in KinKeys(M) : RenSym(pairs, k1) = RenSym(pairs, k2) => k1 = k2
-ImageOf(M, pairs) ==
-  LET nk == [i \in DOMAIN M.pkeys |-> RenSym(pairs, M.pkeys[i])] IN
-  [ intensity |-> Img(pairs, M.intensity),
-    amps  |-> [k \in DOMAIN M.amps |-> Img(pairs, M.amps[k])],          \* keys unchanged
-    comps |-> [k \in DOMAIN M.comps |-> Img(pairs, M.comps[k])],        \* keys unchanged
-    expr  |-> Img(pairs, M.expr),
+ImageBy(M, R(_)) ==
+  LET nk == [i \in DOMAIN M.pkeys |-> R(M.pkeys[i])]
+      I(S) == {R(s) : s \in S}
+  IN
+  [ intensity |-> I(M.intensity),
+    amps  |-> [k \in DOMAIN M.amps |-> I(M.amps[k])],          \* keys unchanged
+    comps |-> [k \in DOMAIN M.comps |-> I(M.comps[k])],        \* keys unchanged
+    expr  |-> I(M.expr),
     pkeys |-> DictKeys(nk),
     pvals |-> DictVals(nk, M.pvals),
-    kin   |-> [k2 \in Img(pairs, KinKeys(M)) |->
-                 Img(pairs, M.kin[CHOOSE k \in KinKeys(M) : RenSym(pairs, k) = k2])],
-    p4    |-> Img(pairs, M.p4) ]
+    kin   |-> [k2 \in I(KinKeys(M)) |-> I(M.kin[CHOOSE k \in KinKeys(M) : R(k) = k2])],
+    p4    |-> I(M.p4) ]
+ImageOf(M, pairs) == ImageBy(M, LAMBDA s : RenSym(pairs, s))
 
 \* a map is admissible for M when the only symbols it identifies (by name) are
 \* parameters carrying the same assumptions, i.e. when it couples parameters and does
@@ -195,6 +199,7 @@ KeysOf(M, kind) ==
   CASE kind = "symbol" -> Params(M) \cup ExtraSyms
     [] kind = "name"   -> Names(Params(M)) \cup ExtraNames
     [] kind = "index"  -> (0 - 1)..Len(M.pkeys)
+Offered(M, a) == a[2] \in KeysOf(M, a[1])
 \* the three views of the mapping agree
 ViewsAgree(M) ==
   \A i \in DOMAIN M.pkeys :
@@ -204,134 +209,179 @@ ViewsAgree(M) ==
        j # 0 /\ j <= i /\ (j < i => M.pkeys[j] # M.pkeys[i] /\ M.pkeys[j].name = M.pkeys[i].name)
 
 \* ---- the state machine --------------------------------------------------------
-VARIABLES orig,      \* the original model object (as it is now)
+VARIABLES orig,      \* parameter_defaults [pkeys, pvals] of the original model object as it is now
+                     \*   (its other attributes cannot be written through any operation modelled here;
+                     \*   that a rename leaves its receiver alone is recorded in last.recvSame)
           cur,       \* the model object the user currently holds
           aliased,   \* cur IS orig (same object), not a copy
           adm,       \* every rename so far was admissible for the model it was applied to
-          last,      \* [op, mid, warned, recvSame]: last operation; recvSame = its receiver
-                     \*   object is the same afterwards as before
+          last,      \* last operation: [op, mid (map id / key kind), idx (position the key of a
+                     \*   ParamGet/ParamSet denotes, 0 = none), warned (names warned about),
+                     \*   recvSame (the receiver object is afterwards what it was before)]
           result,    \* result of the last ParamGet / ParamSet
           steps
 vars == <<orig, cur, aliased, adm, last, result, steps>>
 
-NoOp == [op |-> "Init", mid |-> "-", warned |-> {}, recvSame |-> TRUE]
+Op(op, mid, idx, warned, same) == [op |-> op, mid |-> mid, idx |-> idx, warned |-> warned, recvSame |-> same]
 NoResult == [ok |-> TRUE, val |-> 0]
 
-Init == /\ orig = Model0 /\ cur = Model0 /\ aliased = TRUE /\ adm = TRUE
-        /\ last = NoOp /\ result = NoResult /\ steps = 0
+ParOf(M) == [pkeys |-> M.pkeys, pvals |-> M.pvals]
+Init == /\ orig = ParOf(Model0) /\ cur = Model0 /\ aliased = TRUE /\ adm = TRUE
+        /\ last = Op("Init", "-", 0, {}, TRUE) /\ result = NoResult /\ steps = 0
 
 Rename(mid) ==
   LET pairs == MapTable[mid]
       new == RenameImpl(cur, pairs, Dev)
-      mut == "MutateReceiver" \in Dev /\ pairs # <<>>
+      mut == "MutateReceiver" \in Dev /\ pairs # <<>> /\ new.pkeys # cur.pkeys
   IN
   /\ steps < MaxSteps
   /\ KinInjective(cur, pairs)
   /\ cur' = new
-  /\ aliased' = (aliased /\ pairs = <<>>)
+  /\ aliased' = (aliased /\ pairs = <<>>)                       \* the empty map returns self
   /\ orig' = IF aliased /\ mut THEN [orig EXCEPT !.pkeys = new.pkeys, !.pvals = new.pvals] ELSE orig
   /\ adm' = (adm /\ Admissible(cur, pairs))
-  /\ last' = [op |-> "Rename", mid |-> mid, warned |-> Warned(cur, pairs, Dev),
-              recvSame |-> ~(mut /\ new.pkeys # cur.pkeys)]
+  /\ last' = Op("Rename", mid, 0, Warned(cur, pairs, Dev), ~mut)
   /\ result' = NoResult
   /\ steps' = steps + 1
 
 PickleRoundTrip ==
-  /\ last' = [op |-> "Pickle", mid |-> "-", warned |-> {}, recvSame |-> TRUE]
+  /\ last' = Op("Pickle", "-", 0, {}, TRUE)
   /\ aliased' = FALSE            \* loads(dumps(m)) is a new object equal to m
   /\ UNCHANGED <<orig, cur, adm, steps>>
   /\ result' = NoResult
 
-ParamGet(kind, key) ==
-  LET i == Resolve(cur, kind, key, Dev) IN
+\* a = <<kind, key>>
+ParamGet(a) ==
+  LET kind == a[1]
+      key == a[2]
+      i == Resolve(cur, kind, key, Dev) IN
+  /\ Offered(cur, a)
   /\ result' = IF i = 0 THEN KeyError ELSE Value(cur.pvals[i])
-  /\ last' = [op |-> "ParamGet", mid |-> kind, warned |-> {}, recvSame |-> TRUE]
+  /\ last' = Op("ParamGet", kind, Resolve(cur, kind, key, {}), {}, TRUE)
   /\ UNCHANGED <<orig, cur, aliased, adm, steps>>
 
-ParamSet(kind, key, v) ==
-  LET i == ResolveSet(cur, kind, key, Dev) IN
+\* a = <<kind, key, value>>
+ParamSet(a) ==
+  LET kind == a[1]
+      key == a[2]
+      v == a[3]
+      i == ResolveSet(cur, kind, key, Dev) IN
+  /\ Offered(cur, a)
   /\ steps < MaxSteps
   /\ result' = IF i = 0 THEN KeyError ELSE Value(v)
   /\ cur' = IF i = 0 THEN cur ELSE [cur EXCEPT !.pvals[i] = v]
   /\ orig' = IF i # 0 /\ aliased THEN [orig EXCEPT !.pvals[i] = v] ELSE orig
-  /\ last' = [op |-> "ParamSet", mid |-> kind, warned |-> {}, recvSame |-> (i = 0)]
+  /\ last' = Op("ParamSet", kind, Resolve(cur, kind, key, {}), {}, i = 0)
   /\ steps' = steps + 1
   /\ UNCHANGED <<aliased, adm>>
 
+\* The argument universes are constant-level sets so that TLC splits Next into one action
+\* per argument (its -simulate / -dump output then names the action together with its
+\* argument); which arguments are offered in a state is the guard a \in GetArgs(cur).
+NameUniverse == Names(AllSyms(Model0)) \cup Names(ExtraSyms) \cup ExtraNames
+                \cup UNION {{MapTable[m][i][2] : i \in DOMAIN MapTable[m]} : m \in DOMAIN MapTable}
+TagUniverse == {s.tag : s \in AllSyms(Model0) \cup ExtraSyms} \cup {"none"}
+KeyUniverse(kind) ==
+  CASE kind = "symbol" -> {Sym(n, t) : n \in NameUniverse, t \in TagUniverse}
+    [] kind = "name"   -> NameUniverse
+    [] kind = "index"  -> (0 - 1)..Len(Model0.pkeys)
+GetUniverse == UNION {{<<kind, key>> : key \in KeyUniverse(kind)} : kind \in Kinds}
+SetUniverse == UNION {{<<kind, key, v>> : key \in KeyUniverse(kind), v \in SetValues} : kind \in Kinds}
 Next ==
   \/ \E mid \in DOMAIN MapTable : Rename(mid)
   \/ PickleRoundTrip
-  \/ \E kind \in Kinds : \E key \in KeysOf(cur, kind) : ParamGet(kind, key)
-  \/ \E kind \in Kinds : \E key \in KeysOf(cur, kind) : \E v \in SetValues : ParamSet(kind, key, v)
+  \/ \E a \in GetUniverse : ParamGet(a)
+  \/ \E a \in SetUniverse : ParamSet(a)
 NextRename == \E mid \in DOMAIN MapTable : Rename(mid)
 
 Spec == Init /\ [][Next]_vars
 SpecRename == Init /\ [][NextRename]_vars
 
-\* ---- laws ---------------------------------------------------------------------
-\* state invariants
+\* ---- laws: state invariants -----------------------------------------------------
 TypeOK ==
   /\ ParamsWellFormed(cur) /\ ParamsWellFormed(orig)
   /\ DOMAIN cur.amps = DOMAIN Model0.amps /\ DOMAIN cur.comps = DOMAIN Model0.comps
   /\ steps \in 0..MaxSteps
-ClosureInv == adm => (Closure(cur) /\ NamesUnique(cur))      \* C01 survives admissible maps
+ClosureInv == adm => (Closure(cur) /\ WellNamed(cur))        \* C01 survives admissible maps
 ConsistentInv == ExprConsistent(cur)                         \* attributes stay mutually consistent
 ViewsAgreeInv == ViewsAgree(cur)
-AliasInv == aliased => orig = cur
-\* renaming back gives the model back; two renames compose (checked in every reachable
-\* state for every pair of maps of the alphabet)
+AliasInv == aliased => orig = ParOf(cur)
+\* renaming back gives the model back; two renames compose to the rename by the composed
+\* name map (evaluated in every reachable state for every map / pair of maps of the alphabet)
 InvertibleOn(M, pairs) ==
-  /\ Admissible(M, pairs) /\ KinInjective(M, pairs)
+  /\ KinInjective(M, pairs)
   /\ \A s, t \in AllSyms(M) : NewName(pairs, s.name) = NewName(pairs, t.name) => s.name = t.name
   /\ \A i, j \in DOMAIN pairs : pairs[i][1] = pairs[j][1] => i = j
+  /\ Dom(pairs) \subseteq Names(AllSyms(M))
 Inverse(pairs) == [i \in DOMAIN pairs |-> <<pairs[i][2], pairs[i][1]>>]
 RenameBackInv ==
   \A mid \in DOMAIN MapTable :
     LET pairs == MapTable[mid] IN
-    (InvertibleOn(cur, pairs) /\ Dom(pairs) \subseteq Names(AllSyms(cur)))
-      => ImageOf(ImageOf(cur, pairs), Inverse(pairs)) = cur
+    InvertibleOn(cur, pairs) => ImageOf(ImageOf(cur, pairs), Inverse(pairs)) = cur
 ComposeInv ==
   \A m1, m2 \in DOMAIN MapTable :
     LET p1 == MapTable[m1]
         p2 == MapTable[m2]
         mid == ImageOf(cur, p1)
-        names == Names(AllSyms(cur))
-        comp == {<<n, NewName(p2, NewName(p1, n))>> : n \in names}
     IN (KinInjective(cur, p1) /\ KinInjective(mid, p2))
-       => \A s \in AllSyms(cur) :
-            RenSym(p2, RenSym(p1, s)) = Sym((CHOOSE c \in comp : c[1] = s.name)[2], s.tag)
+       => ImageOf(mid, p2) = ImageBy(cur, LAMBDA s : RenSym(p2, RenSym(p1, s)))
 
-\* action laws: evaluated on every step <<state, state'>>
-StepLaws ==
-  /\ (last'.op = "Rename") =>
-       LET pairs == MapTable[last'.mid] IN
-       \* the renamed model is the image of the receiver under the map built from names
-       /\ cur' = ImageOf(cur, pairs)
-       \* assumptions kept: the symbols with a given name and tag afterwards are exactly the
-       \* images of symbols with that tag
-       /\ \A s \in AllSyms(cur') : \E t \in AllSyms(cur) : t.tag = s.tag /\ NewName(pairs, t.name) = s.name
-       \* unrelated symbols untouched
-       /\ \A s \in AllSyms(cur) : s.name \notin Dom(pairs) => s \in AllSyms(cur')
-       \* only coupling: two symbols are identified iff they get the same name and carry the
-       \* same assumptions; in particular the number of parameters drops by exactly that
-       /\ Len(cur'.pkeys) = Cardinality(Img(pairs, Params(cur)))
-       /\ \A i \in DOMAIN cur'.pkeys :
-            cur'.pvals[i] \in {cur.pvals[j] : j \in {j \in DOMAIN cur.pkeys : RenSym(pairs, cur.pkeys[j]) = cur'.pkeys[i]}}
-       \* admissibility is exactly what keeps the model closed and its names unambiguous
-       /\ (Closure(cur) /\ NamesUnique(cur)) =>
-             ((Closure(cur') /\ NamesUnique(cur')) <=> Admissible(cur, pairs))
-       \* a warning for exactly the names no symbol of the model carries
-       /\ last'.warned = {n \in Dom(pairs) : n \notin Names(AllSyms(cur))}
-       \* the receiver is not modified
-       /\ last'.recvSame
-  /\ (last'.op = "Pickle") => cur' = cur /\ orig' = orig
-  /\ (last'.op = "ParamGet") => cur' = cur /\ orig' = orig
-  \* the original changes only through a ParamSet on an object that IS the original
+\* ---- laws: action properties, evaluated on every step <<state, state'>> ------------
+IsRename == last'.op = "Rename"
+Pairs == MapTable[last'.mid]
+\* every attribute of the renamed model is the image of the receiver's under the symbol map
+\* built from names
+RenameIsImageA == IsRename => cur' = ImageOf(cur, Pairs)
+\* assumptions kept: every symbol afterwards is the renaming of a symbol with the same tag
+AssumptionsKeptA ==
+  IsRename => \A s \in AllSyms(cur') : \E t \in AllSyms(cur) : t.tag = s.tag /\ NewName(Pairs, t.name) = s.name
+\* unrelated symbols untouched
+UnrelatedUntouchedA ==
+  IsRename => /\ \A s \in AllSyms(cur) : s.name \notin Dom(Pairs) => s \in AllSyms(cur')
+              /\ \A a \in DOMAIN cur.amps : \A s \in cur.amps[a] : s.name \notin Dom(Pairs) => s \in cur'.amps[a]
+              /\ \A i \in DOMAIN cur.pkeys :
+                   (\A j \in DOMAIN cur.pkeys : RenSym(Pairs, cur.pkeys[j]) = RenSym(Pairs, cur.pkeys[i]) => j = i)
+                     => \E k \in DOMAIN cur'.pkeys : cur'.pkeys[k] = RenSym(Pairs, cur.pkeys[i]) /\ cur'.pvals[k] = cur.pvals[i]
+\* only coupling: parameters are identified iff they get the same name and carry the same
+\* assumptions, nothing else is; a coupled parameter takes the value of one of its originals
+OnlyCouplingA ==
+  IsRename =>
+    /\ Len(cur'.pkeys) = Cardinality(Img(Pairs, Params(cur)))
+    /\ Cardinality(AllSyms(cur')) = Cardinality(Img(Pairs, AllSyms(cur)))
+    /\ \A i \in DOMAIN cur'.pkeys :
+         cur'.pvals[i] \in {cur.pvals[j] : j \in {j \in DOMAIN cur.pkeys : RenSym(Pairs, cur.pkeys[j]) = cur'.pkeys[i]}}
+\* admissibility is exactly what keeps the model closed and its names unambiguous
+AdmissibleExactA ==
+  (IsRename /\ Closure(cur) /\ WellNamed(cur))
+     => ((Closure(cur') /\ WellNamed(cur')) <=> Admissible(cur, Pairs))
+\* a warning for exactly the names no symbol of the model carries
+WarnsExactlyA == IsRename => last'.warned = {n \in Dom(Pairs) : n \notin Names(AllSyms(cur))}
+\* the receiver of a rename is not modified; the original changes only through a ParamSet on
+\* an object that IS the original; reads and pickling change nothing
+OriginalUnchangedA ==
+  /\ IsRename => last'.recvSame
   /\ (orig' # orig) => (aliased /\ last'.op = "ParamSet")
-  \* a ParamSet changes one value, never keys or order, and all three views then read it
-  /\ (last'.op = "ParamSet") =>
-       /\ cur'.pkeys = cur.pkeys
-       /\ [cur' EXCEPT !.pvals = cur.pvals] = cur
-       /\ Cardinality({i \in DOMAIN cur.pvals : cur'.pvals[i] # cur.pvals[i]}) <= 1
-Laws == [][StepLaws]_vars
+  /\ last'.op \in {"Pickle", "ParamGet"} => (cur' = cur /\ orig' = orig)
+\* ParameterValues: a read returns the value at the position the key denotes, KeyError if it
+\* denotes none; a write changes that one value, never keys or order
+ParamGetA ==
+  last'.op = "ParamGet" =>
+     result' = IF last'.idx = 0 THEN KeyError ELSE Value(cur.pvals[last'.idx])
+ParamSetA ==
+  last'.op = "ParamSet" =>
+     /\ cur'.pkeys = cur.pkeys
+     /\ [cur' EXCEPT !.pvals = cur.pvals] = cur
+     /\ IF last'.idx = 0 THEN result' = KeyError /\ cur' = cur
+        ELSE /\ result'.ok /\ cur'.pvals[last'.idx] = result'.val
+             /\ \A i \in DOMAIN cur.pvals : i # last'.idx => cur'.pvals[i] = cur.pvals[i]
+
+RenameIsImage == [][RenameIsImageA]_vars
+AssumptionsKept == [][AssumptionsKeptA]_vars
+UnrelatedUntouched == [][UnrelatedUntouchedA]_vars
+OnlyCoupling == [][OnlyCouplingA]_vars
+AdmissibleExact == [][AdmissibleExactA]_vars
+WarnsExactly == [][WarnsExactlyA]_vars
+OriginalUnchanged == [][OriginalUnchangedA]_vars
+ParamGetLaw == [][ParamGetA]_vars
+ParamSetLaw == [][ParamSetA]_vars
 =============================================================================
